@@ -267,6 +267,21 @@ fn substitution_cases() -> Vec<SignedCase> {
         for h in type_substitutions(&header) {
             out.push(SignedCase { payload: payload.clone(), header: h, disclosures: b.disclosures.clone(), sign: true });
         }
+        // every string-valued header member and top-level payload member replaced by each alignment string
+        for s_ in alignment_strings() {
+            for field in ["typ", "alg", "kid", "cty", "x5t", "jku"] {
+                let mut h = header.clone();
+                h[field] = json!(s_);
+                for sign in [true, false] {
+                    out.push(SignedCase { payload: payload.clone(), header: h.clone(), disclosures: b.disclosures.clone(), sign });
+                }
+            }
+            for field in ["iss", "_sd_alg", "sub", "jti"] {
+                let mut p = payload.clone();
+                p[field] = json!(s_);
+                out.push(SignedCase { payload: p, header: header.clone(), disclosures: b.disclosures.clone(), sign: true });
+            }
+        }
         for (i, d) in b.disclosures.iter().enumerate() {
             if let Some(dv) = codec::decode_json(d) {
                 for q in type_substitutions(&dv) {
@@ -456,7 +471,8 @@ fn kb_value_cases() -> Vec<(String, Fmt)> {
     let mut out = vec![];
     let mut l = Local::default();
     let u = json!({"iss": gen::ISS, "exp": gen::EXP, "a": 1});
-    let vals = [json!(0), json!(-1), json!(1.5), json!(9223372036854775807u64), json!(9223372036854775808u64), json!(u64::MAX), json!(1e300), json!(-1e300), json!("s"), json!(""), Value::Null, json!([]), json!({}), json!(true), json!([1]), json!({"a": 1})];
+    let mut vals: Vec<Value> = alignment_strings().into_iter().map(Value::String).collect();
+    vals.extend([json!(0), json!(-1), json!(1.5), json!(9223372036854775807u64), json!(9223372036854775808u64), json!(u64::MAX), json!(1e300), json!(-1e300), json!("s"), json!(""), Value::Null, json!([]), json!({}), json!(true), json!([1]), json!({"a": 1})]);
     for hk in [Hk::Es, Hk::Ed] {
         let cfg = crate::pipeline::Cfg { fmt: Fmt::Compact, alg: Alg::HS256, decoys: false, hk };
         let Some(cred) = crate::pipeline::issue_checked(&u, &Strat::Top, &cfg, Default::default(), "C07", &mut l) else { continue };
